@@ -120,6 +120,10 @@ add("C23", "vcheck", "exploration", "stress property testing with generated data
     "Databases from generated histories on DbFile (and Db at lower weight); 12-40 generated read queries executed by 2-16 threads under a shared RwLock read guard, singly and inside read transactions, 1-3 rounds; threads yield or sleep while holding the guard of the shared file handle (hook H3), which pushes the other readers onto the fresh-handle path (counted: required > 0 for a case to count). Every result must equal the result of the same query run alone before the threads start; a panic in a reader is a failure too.",
     "The operating system owns the interleaving: the hook forces contention but cannot enumerate schedules, so a race confined to a narrow window can be missed and a failure may not replay bit-for-bit (replay re-runs the saved workload 20 times). Weaker than the other checks by construction. Cases run in child processes with a 90 s watchdog because a corrupted read can send a reader into an endless scan (undecided, not a violation).", "DESIGN 3/C23")
 
+add("C31", "vcheck", "exploration", "schedule-controlled property testing on a real 3-node cluster of server processes: proptest-generated action sequences and task-delay plans for a source hook in the execution task; trace invariant plus state agreement with the leader",
+    "One follower is killed while idle, the remaining majority commits a generated sequence of 4-10 order-sensitive actions (users, databases, inserts, renames, copies, shares, deletions), the follower restarts and receives them all at once; hook H4 traces every execution (start/end per log index) and delays the executing task by a generated plan so that unordered tasks would finish in the order the plan dictates. The restarted node's trace must show every index once, never again after a restart, no overlap and increasing indexes; its observable state must become the leader's.",
+    "Real processes and the wall clock: elections and catch-up are awaited with timeouts; a cluster that elects no leader within 40 s is an undecided case. Only the catch-up path of a restarted follower and the start-up replay are exercised, not every way several entries can be committed at once.", "DESIGN 3/C31, appendix E")
+
 TITLES = {}
 for l in open("/verif/properties.jsonl"):
     pr = json.loads(l)
